@@ -27,7 +27,11 @@ pub fn scenario(seed: u64, campaign: &'static str, prop: &'static str, idx: u64)
     for i in 0..n {
         let target = targets[rng.below(targets.len())];
         let (class, bytes) = mutated_request(&mut rng, target, sc.request_size as usize);
-        let bytes = if rng.chance(1, 3) { decorate(&mut rng, &bytes) } else { bytes };
+        let bytes = match rng.below(6) {
+            0 | 1 => decorate(&mut rng, &bytes),
+            2 if prop != "C10" => decorate_odd(&mut rng, &bytes),
+            _ => bytes,
+        };
         let mut c = Conn::simple(i, if overlapped { 0 } else { i as u32 }, bytes, class);
         if c.request.0.is_empty() {
             c.request = crate::util::Bytes(b"G".to_vec());
@@ -76,6 +80,27 @@ pub fn long_history(seed: u64, idx: u64) -> Scenario {
     sc
 }
 
+/// one stalled connection and a burst of more than a thousand ordinary ones in the same phase:
+/// queue limits and other thresholds far beyond the worker count
+pub fn burst(seed: u64, idx: u64) -> Scenario {
+    let mut rng = rng_for(seed, "C04", "burst", idx);
+    let mut sc = Scenario::base("C04", "burst", idx);
+    sc.engine = Engine::System;
+    sc.sched = Sched { kind: SchedKind::Random, seed: rng.next(), depth: 0 };
+    sc.workers = rng.range(2, 3);
+    sc.request_size = 10000;
+    sc.tree = small_tree(rng.next());
+    let mut stall = Conn::simple(0, 0, get("/file.txt"), "stall");
+    stall.client = ClientMode::Stall { then_send: true };
+    sc.conns.push(stall);
+    let n = *rng.pick(&[1030usize, 1100, 2060, 4100]);
+    for i in 1..=n {
+        sc.conns.push(Conn::simple(i, 0, get(*rng.pick(&["/file.txt", "/one.txt", "/missing.txt"])), "get"));
+    }
+    sc.probe = Probe::FollowUp { request: probe_request().into() };
+    sc
+}
+
 pub fn plan(tier: Tier, seed: u64) -> Vec<Campaign> {
     let mk = |name: &'static str, quick: u64, weight: u32| Campaign {
         name,
@@ -95,6 +120,15 @@ pub fn plan(tier: Tier, seed: u64) -> Vec<Campaign> {
         },
         exhaustive: false,
         gen: Box::new(move |i| long_history(seed, i)),
+    });
+    v.push(Campaign {
+        name: "burst",
+        budget: match tier {
+            Tier::Quick => Budget::Count(16),
+            Tier::Thorough => Budget::Time(1),
+        },
+        exhaustive: false,
+        gen: Box::new(move |i| burst(seed, i)),
     });
     v
 }
